@@ -656,6 +656,13 @@ func (zp *ZoneParser) Next() (RR, bool) {
 
 			_, isPrivate := rr.(*PrivateRR)
 			if !isPrivate && zp.c.Peek().token == "" {
+				// A failed read (for instance an error raised while expanding a
+				// $GENERATE template) also ends the token stream here; that is an
+				// error to report, not a record without rdata.
+				if zp.c.Err() != nil {
+					return nil, false
+				}
+
 				// This is a dynamic update rr.
 
 				if err := slurpRemainder(zp.c); err != nil {
